@@ -105,8 +105,14 @@ impl ProcPlan {
 pub fn format_source(text: &str) -> Option<String> {
     let file = syn::parse_file(text).ok()?;
     // prettyplease panics on some verbatim input; treat that as a formatter failure.
-    std::panic::catch_unwind(std::panic::AssertUnwindSafe(|| prettyplease::unparse(&file))).ok()
+    let body =
+        std::panic::catch_unwind(std::panic::AssertUnwindSafe(|| prettyplease::unparse(&file))).ok()?;
+    // The simulated formatter must not be byte-identical to the library's own prettyplease path,
+    // or "formatted by the external process" and "formatted in-process" could not be told apart.
+    Some(format!("{SIM_FORMATTER_HEADER}{body}"))
 }
+
+pub const SIM_FORMATTER_HEADER: &str = "// formatted by the simulated rustfmt\n";
 
 #[derive(Debug, Clone, Copy, PartialEq, Eq)]
 pub struct Ev {
@@ -561,11 +567,18 @@ impl SimProc {
     }
 
     /// The parent cannot continue; let the child run. `false`: the child cannot either.
+    /// Time the blocked parent spends waiting passes on its own monotonic clock too
+    /// (1 tick = 1 microsecond), so `Instant`-based timing around the formatter sees it.
     fn advance_child(&mut self) -> bool {
         if self.status.is_some() {
             return false;
         }
-        self.step_child()
+        let before = self.now;
+        let progressed = self.step_child();
+        if self.now > before {
+            crate::seams::advance_thread_clock((self.now - before).saturating_mul(1000));
+        }
+        progressed
     }
 }
 
